@@ -1523,6 +1523,9 @@ class ReportStream(C.Stream):
                        d(passed=True, failed=True, skipped=True), d(from_report=True, enabled=True, disabled=True),
                        d(failed=True, from_report=True), dict(d(non_passed=True), backend="xml"),
                        d(grep="nothing-like-this"),
+                       # the status flags are OR-ed, --non-passed included
+                       d(passed=True, non_passed=True), d(skipped=True, non_passed=True), d(passed=True, failed=True, non_passed=True),
+                       d(passed=True, failed=True, skipped=True, non_passed=True, from_report=True),
                        # D9 on the report side (IndexError on the unrepaired tree)
                        d(from_report=True, tags=[[""]]), d(failed=True, paths=[""]),
                        # --grep with regular expressions: every grepable item is searched on its own
@@ -1555,6 +1558,13 @@ class ReportStream(C.Stream):
             cli["non_passed"] = True
         elif r < 0.74:
             cli["passed"] = cli["skipped"] = True
+        elif r < 0.90:
+            # ANY combination of the four status flags (they are OR-ed: --passed --non-passed selects every executed or skipped
+            # test); derived from the same draw, the generated stream is otherwise unchanged
+            bits = int((r - 0.74) / 0.16 * 16) & 15
+            for b, k in enumerate(("passed", "failed", "skipped", "non_passed")):
+                if bits >> b & 1:
+                    cli[k] = True
         rg = rng.random()
         if rg < 0.16:
             cli["grep"] = rng.choice(GREP_WORDS + ["GOT", "Step", ""])
